@@ -65,6 +65,7 @@ type kase struct {
 	Depth  int     `json:"depth,omitempty"`
 	Dedent int     `json:"dedent,omitempty"`
 	BOM    bool    `json:"bom"`
+	Steps  []int   `json:"steps,omitempty"` // route rewrite
 }
 
 // buildAPI builds the forest through the public API. ok=false when the API
@@ -229,6 +230,14 @@ func buildCase(k kase) (*gedcom.Document, string) {
 			return nil, "not-expressible"
 		}
 		return doc, "built"
+	case "rewrite":
+		var doc *gedcom.Document
+		var class string
+		p, msg, _ := vlib.Try(func() { doc, class = buildRewrite(k) })
+		if p {
+			return nil, "api-panics:" + vlib.MsgClass(msg)
+		}
+		return doc, class
 	case "text":
 		r := gx.Decode(k.Text, false, false)
 		if r.Panicked || r.Err != nil {
@@ -380,6 +389,14 @@ func run(tier, unit string, r *vlib.Rec) {
 				}
 			}
 		}
+	case "rewrite": // rewrite:<maxlen>
+		for idx := lo; idx < hi; idx++ {
+			seq := rewriteSeq(idx)
+			for _, st := range seq {
+				r.Count("rewrite:" + rewriteSteps[st].Name)
+			}
+			runCase(r, kase{Route: "rewrite", Steps: seq, BOM: idx%2 == 1})
+		}
 	case "depth":
 		for d := lo; d < hi; d++ {
 			for dd := 0; dd <= int(d); dd++ {
@@ -411,6 +428,11 @@ func plan(tier string) []string {
 		out = append(out, vlib.Chunks(fmt.Sprintf("text:%d", n), int64(len(gen.AllForests(n)))*gen.Pow(len(textLabels), n), 20000)...)
 	}
 	out = append(out, vlib.Chunks("depth", 100, 10)...)
+	rw := 3
+	if tier == "thorough" {
+		rw = 4
+	}
+	out = append(out, vlib.Chunks(fmt.Sprintf("rewrite:%d", rw), rewriteCount(rw), 500)...)
 	out = append(out, "empty:0:1")
 	out = append(out, vlib.Chunks("chars", 0x60, 8)...)
 	return out
@@ -446,7 +468,10 @@ func main() {
 		Run:    run,
 		Replay: replay,
 		Required: func(string) []string {
-			req := []string{"route:api:built", "route:text:built", "route:depth:built", "depth>=10", "pairs", "chars", "empty-forest"}
+			req := []string{"route:api:built", "route:text:built", "route:depth:built", "depth>=10", "pairs", "chars", "empty-forest", "route:rewrite:built"}
+			for _, st := range rewriteSteps {
+				req = append(req, "rewrite:"+st.Name)
+			}
 			for _, t := range devTags {
 				req = append(req, "tag:"+t)
 			}
